@@ -858,6 +858,8 @@ fn can_show_definition(ctx: &Context, name: &str) -> bool {
 fn expand_aliases(ctx: &Context, name: &str) -> (String, String) {
     let mut name = name.to_owned();
     let mut canon = ctx.canonicalize(&name).unwrap_or_else(|| name.clone());
+    // Aliases from different loads can form a circle.
+    let mut hops = 0;
 
     while let Some(&Expr::Unit { name: ref unit }) = {
         ctx.registry
@@ -865,7 +867,8 @@ fn expand_aliases(ctx: &Context, name: &str) -> (String, String) {
             .get(&name)
             .or_else(|| ctx.registry.definitions.get(&*canon))
     } {
-        if ctx.registry.base_units.contains(&*name) {
+        hops += 1;
+        if hops > 64 || ctx.registry.base_units.contains(&*name) {
             break;
         }
         let unit_canon = ctx.canonicalize(unit).unwrap_or_else(|| unit.clone());
